@@ -50,7 +50,7 @@ def roots_of(e, acc=None):
 
 def has_top(e):
     k = e[0]
-    if k == "top":
+    if k == "top" or k == "sym":
         return True
     if k == "op":
         return any(has_top(a) for a in e[3:] if isinstance(a, tuple))
@@ -153,12 +153,13 @@ class Unknown(Exception):
 
 def mk(op, t, *args):
     """build (and constant-fold) an operation"""
-    if any(a == TOP for a in args if isinstance(a, tuple) and a and a[0] == "top"):
+    if any(isinstance(a, tuple) and a and a[0] in ("top", "sym") for a in args):
         return TOP
     e = ("op", op, t) + tuple(args)
-    if all((not isinstance(a, tuple)) or a[0] == "c" for a in args):
+    if not roots_of(e):
         try:
-            return C(ev(e, {}))
+            r = ev(e, {})
+            return C(r) if not isinstance(r, tuple) else TOP
         except Unknown:
             return TOP
     if _depth(e) > 24:
@@ -245,6 +246,7 @@ class PE:
         self.leaves = []
         self.seen = set()
         self.stats = {"splits": 0, "blocks": 0, "inlined": 0}
+        self.max_visits = 0
 
     # ---- hooks ---------------------------------------------------------------------------------
     def init_mem(self, state, base, path, type_):
@@ -394,6 +396,9 @@ class PE:
             n = frame.visits.get(block.name, 0) + 1
             frame.visits = dict(frame.visits)
             frame.visits[block.name] = n
+            if self.max_visits and n > self.max_visits:
+                self.leaves.append(Leaf("loopcut", state, None, block.instrs[0], block.name))
+                return []
             # phis (parallel)
             newv = {}
             for i in block.instrs:
